@@ -24,11 +24,12 @@ Definition norm6 (v : V6 T) : T := sqrt_ O (dot6 O v v).
 Definition tw_v (S : V6 T) : V3 T := let '(v0,v1,v2,_,_,_) := S in (v0,v1,v2).
 Definition tw_w (S : V6 T) : V3 T := let '(_,_,_,w0,w1,w2) := S in (w0,w1,w2).
 
-(* vectors.unitvec:   n = norm(v);  if n > 100*_eps: return v / n  else: return None *)
+(* vectors.unitvec:   n = norm(v);  if n > 10*_eps: return v / n  else: return None   (100*_eps before fix d900630;
+   the value is a parameter, regenerated from the source) *)
 Definition unitvec_m (thr : T) (v : V3 T) : option (V3 T) :=
   let n := norm3 O v in if ltb O thr n then Some (vdiv3 v n) else None.
 
-(* vectors.unitvec_norm:  n = np.linalg.norm(v);  if n > 100*_eps: return (v / n, n) else: return None *)
+(* vectors.unitvec_norm:  n = np.linalg.norm(v);  if n > 10*_eps: return (v / n, n) else: return None *)
 Definition unitvec_norm_m (thr : T) (v : V3 T) : option (V3 T * T) :=
   let n := norm3 O v in if ltb O thr n then Some (vdiv3 v n, n) else None.
 
